@@ -311,7 +311,10 @@ fn broken_tx_fields(rng: &mut Rng, tx: &Tx) -> String {
     let f: Vec<&str> = good.split(' ').collect();
     let id0 = tx.inputs[0].prev_output.hash.encode();
     let bad_ids: Vec<String> = vec!["zz".into(), "".into(), "0".into(), id0[..62].to_string(), format!("{}00", id0), format!("{}g", &id0[..63]), id0[..63].to_string(), format!(" {}", &id0[..63]),
-        format!("0x{}", &id0[..62]), "é".repeat(32), format!("{}\u{e9}", &id0[..62]), "00".repeat(31), id0.to_uppercase()];
+        format!("0x{}", &id0[..62]), "é".repeat(32), format!("{}\u{e9}", &id0[..62]), "00".repeat(31), id0.to_uppercase(),
+        // exactly 64 BYTES with a multi-byte character at an odd offset / of three and four bytes, and a sign character
+        format!("{}\u{e9}{}", &id0[..1], &id0[..61]), format!("\u{20ac}{}", &id0[..61]), format!("{}\u{1f600}{}", &id0[..3], &id0[..57]),
+        format!("{}\u{e9}", &id0[..62]).chars().rev().collect::<String>(), format!("+f{}", &id0[..62]), format!("{}-1", &id0[..62])];
     let mut ins: Vec<String> = split_list(f[2], ',').iter().map(|s| s.to_string()).collect();
     let mut outs: Vec<String> = split_list(f[3], ',').iter().map(|s| s.to_string()).collect();
     let (mut ver, mut lt) = (f[0].to_string(), f[1].to_string());
